@@ -79,6 +79,7 @@ def consts(cfg, which, tracefile=None):
     d["MaxReq"] = str(cfg["maxReq"])
     d["Renom"] = "TRUE" if cfg["renom"] else "FALSE"
     d["NomBase"] = str(cfg.get("nomBase", 0))
+    d["NomStep"] = str(cfg.get("nomStep", 1))
     d["Miss"] = "{" + ", ".join(q(x) for x in cfg.get("miss", [])) + "}"
     d["Lite"] = "[A |-> %s, B |-> %s]" % tuple("TRUE" if cfg["lite"][a] else "FALSE" for a in "AB")
     d["CheckPrio"] = "[A |-> %s, B |-> %s]" % tuple("TRUE" if cfg["checkPrio"][a] else "FALSE" for a in "AB")
